@@ -217,3 +217,34 @@ P("seed-C15-2", ["C15"], "seeded/C15-2/patch.diff", rule="R-C15-3")
 N("c15-sorted-set", ["C15"], "find.py", "    cite_sources = set(\n        e.reporter.source\n        for e in (token.exact_editions or token.variation_editions)\n    )\n",
   "    cite_sources = frozenset(\n        e.reporter.source\n        for e in (token.exact_editions or token.variation_editions)\n    )\n")
 N("c15-local-fresh-mutation", ["C15"], "helpers.py", "    filtered_citations: List[CitationBase] = [sorted_citations[0]]\n", "    filtered_citations: List[CitationBase] = []\n    filtered_citations.append(sorted_citations[0])\n")
+
+# ------------------------------------------------------------------ C16 / C18
+P("seed-C16-1", ["C16", "C18"], "seeded/C16-1/patch.diff")
+P("seed-C16-2", ["C16"], "seeded/C16-2/patch.diff", rule="R-C16-4")
+P("seed-C18-1", ["C18"], "seeded/C18-1/patch.diff", rule="R-C18-1")
+P("seed-C18-2", ["C18"], "seeded/C18-2/patch.diff", rule="R-C18-5")
+B("c18-revert-defendant-year", ["C18"], "helpers.py", "                citation.year = get_year(year)\n", "                citation.year = int(year)\n", rule="R-C18-1")
+B("c18-no-lower-bound", ["C18"], "helpers.py", "    if year < 1600 or year > _highest_valid_year:\n", "    if year > _highest_valid_year:\n", rule="R-C18-3")
+B("c18-upper-bound-this-year", ["C18"], "helpers.py", "_highest_valid_year = date.today().year + 1\n", "_highest_valid_year = date.today().year + 10\n", rule="R-C18-3")
+B("c18-year-group-loose", ["C18"], "regexes.py", "        (?P<year>\n            \\d{4}\n        )\n", "        (?P<year>\n            \\d{2,4}\n        )\n", rule="R-C18-3")
+B("c18-numeric-without-textual", ["C18"], "helpers.py", "    citation.metadata.year = m[\"year\"]\n    if m[\"year\"]:\n        citation.year = get_year(m[\"year\"])\n    if m[\"court\"]:\n",
+  "    if m[\"year\"]:\n        citation.year = get_year(m[\"year\"])\n    if m[\"court\"]:\n", rule="R-C18-2")
+B("c18-guess-first-of-many", ["C18", "C16"], "models.py", "        if len(editions) == 1:\n            self.edition_guess = editions[0]\n", "        if len(editions) >= 1:\n            self.edition_guess = editions[0]\n")
+B("c18-variations-before-exact", ["C18", "C16"], "models.py", "        editions = self.exact_editions or self.variation_editions\n", "        editions = self.variation_editions or self.exact_editions\n")
+B("c18-guess-outside-candidates", ["C18", "C16"], "models.py", "        if len(editions) == 1:\n            self.edition_guess = editions[0]\n",
+  "        if len(editions) == 1:\n            self.edition_guess = editions[0]\n        elif self.all_editions:\n            self.edition_guess = self.all_editions[0]\n")
+B("c18-disambiguate-drops-nonresource", ["C18"], "helpers.py", "        if not isinstance(c, ResourceCitation) or c.edition_guess\n", "        if isinstance(c, ResourceCitation) and c.edition_guess\n", rule="R-C18-5")
+B("c18-flag-used-early", ["C18"], "find.py", "                citation = _extract_full_citation(document.words, i)\n",
+  "                citation = _extract_full_citation(document.words, i)\n                if remove_ambiguous and not citation.edition_guess:\n                    continue\n", rule="R-C18-5")
+N("c18-guess-early-return", ["C18", "C16"], "models.py", "        if len(editions) == 1:\n            self.edition_guess = editions[0]\n",
+  "        if len(editions) != 1:\n            return\n        self.edition_guess = editions[0]\n")
+B("c16-short-form-not-normalised", ["C16"], "find.py", "    citation.guess_edition()\n    citation.guess_court()\n    return citation\n", "    citation.guess_court()\n    return citation\n", rule="R-C16-5")
+B("c16-journal-skips-super", ["C16"], "models.py", "        add_journal_metadata(self, words)\n        super().add_metadata(words)\n", "        add_journal_metadata(self, words)\n", rule="R-C16-5")
+B("c16-corrected-reporter-ignores-guess", ["C16"], "models.py",
+  "        return (\n            self.edition_guess.short_name\n            if self.edition_guess\n            else self.groups[\"reporter\"]\n        )\n", "        return self.groups[\"reporter\"]\n", rule="R-C16-5")
+B("c16-hash-reads-metadata", ["C16", "C06"], "models.py", '                            "reporter": self.corrected_reporter(),\n', '                            "reporter": self.corrected_reporter(),\n                            "pin": self.metadata.pin_cite,\n')
+B("c16-eq-compares-fields", ["C16", "C06"], "models.py", "        return self.__hash__() == other.__hash__()\n\n    @dataclass(eq=True, unsafe_hash=True)\n    class Metadata:\n",
+  "        return self.groups == other.groups and self.metadata == other.metadata\n\n    @dataclass(eq=True, unsafe_hash=True)\n    class Metadata:\n")
+B("c16-id-citation-value-hash", ["C16", "C06"], "models.py", '        """IdCitation objects are always considered unique for safety."""\n        return id(self)\n',
+  '        """IdCitation objects are always considered unique for safety."""\n        return hash(self.metadata.pin_cite)\n')
+B("c16-sha-unsorted", ["C16", "C06"], "utils.py", "json.dumps(dictionary, sort_keys=True, default=str)", "json.dumps(dictionary, default=str)")
